@@ -20,7 +20,7 @@ def unit(root='/repo'):
 pub type Inode = u64;
 pub trait BitmapSlice {}
 // PassthroughFs: only the configuration is relevant here (the other fields are fd tables, atomics, maps)
-pub struct PassthroughFs<S> { pub cfg: Config, pub writeback: AtomicBool, pub proc_self_fd: File, pub inode_map: InodeMap, pub phantom: PhantomData<S> }
+pub struct PassthroughFs<S> { pub cfg: Config, pub writeback: AtomicBool, pub seal_size: AtomicBool, pub proc_self_fd: File, pub inode_map: InodeMap, pub phantom: PhantomData<S> }
 // ---- safe opening (C06 / C05 "special files are looked up but never opened for I/O"): syscalls as capability-guarded externals
 #[verifier::external_body] pub struct File { _p: u8 }
 #[verifier::external_body] pub struct FileHandle { _p: u8 }
@@ -107,6 +107,7 @@ impl<S: BitmapSlice + Send + Sync> PassthroughFs<S> {
         Fn('src/passthrough/util.rs', None, 'is_safe_inode', ensures=['r == safe_mode(mode) // [C06.safeopen.pred]'], props=['C06']),
         Fn('src/passthrough/util.rs', None, 'is_dir', ensures=['r == (mode & 0o170000u32 == 0o040000u32)'], props=['C06']),
         Fn('src/passthrough/util.rs', None, 'ebadf', ensures=['r.os_code() == Some(9i32)'], props=['C06']),
+        Fn('src/passthrough/util.rs', None, 'eperm', ensures=['r.os_code() == Some(1i32)'], props=['C06']),
         Group('impl<S: BitmapSlice + Send + Sync> PassthroughFs<S> {', [
             Fn(PTS, 'impl<S: BitmapSlice + Send + Sync> PassthroughFs<S>', 'open_inode',
                # "special files are looked up but never opened for I/O": only regular files and directories are ever re-opened
